@@ -345,10 +345,12 @@ func c08aggregated(c *Ctx, fn *ssa.Function) {
 			}
 		}
 	}
-	if reset == nil || build == nil {
-		r.Unknown("PATH", key+"/aggregated-section", c.Pos(fn.Pos()), sprintf("reset of the section found: %v, construction of the aggregated profile found: %v", reset != nil, build != nil))
+	if build == nil {
+		r.Unknown("PATH", key+"/aggregated-section", c.Pos(fn.Pos()), "construction of the aggregated profile not found: unknown idiom")
 		return
 	}
+	// two equivalent idioms: the section is reset in place (c.AggregatedUsage = nil, and tested again later), or it is
+	// copied into a local that is set to nil; in the second form the explorer follows the local through its merge
 	for _, sc := range []struct{ name, lenSuffix, strSuffix string }{
 		{"thresholds-empty", ".UsageThresholds", ""},
 		{"type-empty", "", ".UsageAggregationType"},
@@ -356,13 +358,21 @@ func c08aggregated(c *Ctx, fn *ssa.Function) {
 		f := an.Facts{}
 		// the section is present: nil tests of the section that are evaluated before the reset
 		for _, b := range fn.Blocks {
-			if !(b == reset.Block() || b.Dominates(reset.Block())) {
+			if reset != nil && !(b == reset.Block() || b.Dominates(reset.Block())) {
 				continue
 			}
 			for _, in := range b.Instrs {
 				bo, ok := in.(*ssa.BinOp)
 				if !ok || (bo.Op != token.EQL && bo.Op != token.NEQ) || !an.IsNilConst(bo.Y) || !strings.HasSuffix(an.Path(bo.X), ".AggregatedUsage") {
 					continue
+				}
+				if reset == nil {
+					// only tests of the field as read from the annotation object (not of a local that may have been reset)
+					if ld, isLd := bo.X.(*ssa.UnOp); !isLd || ld.Op != token.MUL {
+						continue
+					} else if _, isFA := ld.X.(*ssa.FieldAddr); !isFA {
+						continue
+					}
 				}
 				if bo.Op == token.NEQ {
 					f[bo] = an.True
@@ -378,8 +388,8 @@ func c08aggregated(c *Ctx, fn *ssa.Function) {
 		} else {
 			n += assumeEmpty(fn, ".AggregatedUsage"+sc.strSuffix, f)
 		}
-		reach := an.Explore(fn, nil, f, func(in ssa.Instruction) bool { return in == ssa.Instruction(reset) })
-		r.Check(n >= 2 && !reach.Reached(build), "PATH", key+"/aggregated-section/"+sc.name, c.InstrPos(reset), "a half-specified aggregated section is reset before it can be used", sprintf("with the aggregated section's %s the aggregated profile can still be built without the section having been reset (%d tests recognised)", sc.name, n))
+		reach := an.Explore(fn, nil, f, func(in ssa.Instruction) bool { return reset != nil && in == ssa.Instruction(reset) })
+		r.Check(n >= 2 && !reach.Reached(build), "PATH", key+"/aggregated-section/"+sc.name, c.InstrPos(build), "a half-specified aggregated section is reset before it can be used", sprintf("with the aggregated section's %s the aggregated profile can still be built without the section having been reset (%d tests recognised)", sc.name, n))
 	}
 }
 
